@@ -436,7 +436,9 @@ fn exec(cl: &mut Cluster, ev: &Ev, run: &mut Run, trace: &mut Vec<String>, strea
             if cl.dir.is_none() {
                 return true;
             }
-            let held = fields(&cl.node(i).verif_dump())["log"].clone();
+            let before = fields(&cl.node(i).verif_dump());
+            let held = before["log"].clone();
+            let (held_term, held_vote) = (before["t"].clone(), before["v"].clone());
             cl.nodes[i] = None; // drop: closes the WAL
             let nd = cl.make_node(i);
             cl.nodes[i] = Some(nd);
@@ -451,6 +453,17 @@ fn exec(cl: &mut Cluster, ev: &Ev, run: &mut Run, trace: &mut Vec<String>, strea
                 run.rep.violation(
                     "tensor_chain.raft/restart_log_differs_from_held_log",
                     &format!("node {i} held log {held} before the crash, restarted from its WAL with {recovered}"),
+                    json!({"n": cl.cfg.n, "pre_vote": cl.cfg.pre_vote, "geo": cl.cfg.geo, "fast_path": cl.cfg.fast_path, "wal": cl.cfg.wal, "events": trace}),
+                );
+            }
+            // the same for the term and the vote: both are written to the WAL before the node acts on them, so a
+            // restart comes back in the term it was in with the vote it had cast (a forgotten vote is a second
+            // vote in that term: two leaders)
+            let after = fields(&cl.node(i).verif_dump());
+            if after["t"] != held_term || after["v"] != held_vote {
+                run.rep.violation(
+                    "tensor_chain.raft/restart_forgets_term_or_vote",
+                    &format!("node {i} was in term {held_term} with vote {held_vote} before the crash, restarted from its WAL in term {} with vote {}", after["t"], after["v"]),
                     json!({"n": cl.cfg.n, "pre_vote": cl.cfg.pre_vote, "geo": cl.cfg.geo, "fast_path": cl.cfg.fast_path, "wal": cl.cfg.wal, "events": trace}),
                 );
             }
